@@ -4,7 +4,7 @@
 //! A case line is an abstract dump model (compact text, see `Model::parse`):
 //!   roundtrip fl=<flags> pad=<0|1> T=<threads> M=<modules> R=<regions> I=<meminfo> N=<thread names>
 //!             U=<unloaded> X=<exception|-> S=<system info|-> D=<extra raw streams>
-//!             [Y=<misc info|->] [H=<handle data|->] [L=<Linux maps|->]
+//!             [Y=<misc info|->] [H=<handle data|->] [L=<Linux maps|->] [C=<Crashpad info|->]
 //!             (optional trailing fields: absent = the model has no such stream)
 //!
 //! `exec` serializes the model with **minidump-synth** (a foreign serializer: directory last, data
@@ -673,6 +673,303 @@ fn foreign_maps(ms: &[MapEntry]) -> Vec<u8> {
     out
 }
 
+/// a Crashpad annotation object
+#[derive(Clone, Debug, PartialEq)]
+enum Ann {
+    Invalid(Vec<u8>),
+    Str(Vec<u8>, Vec<u8>),
+    /// any type but TYPE_INVALID / TYPE_STRING: (name, type, value word)
+    Other(Vec<u8>, u16, u32),
+}
+
+#[derive(Clone, Debug, PartialEq)]
+struct CpModule {
+    index: u32,
+    version: u32,
+    list: Vec<Vec<u8>>,
+    dict: Vec<(Vec<u8>, Vec<u8>)>,
+    anns: Vec<Ann>,
+}
+
+#[derive(Clone, Debug, PartialEq)]
+struct Crashpad {
+    version: u32,
+    report_id: [u32; 11],
+    client_id: [u32; 11],
+    dict: Vec<(Vec<u8>, Vec<u8>)>,
+    modules: Vec<CpModule>,
+}
+
+fn xs(b: &[u8]) -> String {
+    format!("x{}", hex(b))
+}
+fn unx(s: &str) -> Option<Vec<u8>> {
+    // strings are UTF-8 (the wire format's MINIDUMP_UTF8_STRING)
+    unhex(s.strip_prefix('x')?).filter(|b| std::str::from_utf8(b).is_ok())
+}
+fn sep_list<T>(s: &str, sep: char, f: impl Fn(&str) -> Option<T>) -> Option<Vec<T>> {
+    if s.is_empty() {
+        return Some(vec![]);
+    }
+    s.split(sep).map(f).collect()
+}
+fn kvs_text(d: &[(Vec<u8>, Vec<u8>)]) -> String {
+    d.iter().map(|(k, v)| format!("{}:{}", xs(k), xs(v))).collect::<Vec<_>>().join("/")
+}
+fn parse_kv(s: &str) -> Option<(Vec<u8>, Vec<u8>)> {
+    let (k, v) = s.split_once(':')?;
+    Some((unx(k)?, unx(v)?))
+}
+
+impl Ann {
+    fn name(&self) -> &[u8] {
+        match self {
+            Ann::Invalid(n) | Ann::Str(n, _) | Ann::Other(n, _, _) => n,
+        }
+    }
+    fn text(&self) -> String {
+        match self {
+            Ann::Invalid(n) => format!("i:{}", xs(n)),
+            Ann::Str(n, v) => format!("s:{}:{}", xs(n), xs(v)),
+            Ann::Other(n, ty, v) => format!("o:{}:{}:{}", xs(n), ty, v),
+        }
+    }
+    fn parse(s: &str) -> Option<Ann> {
+        let p: Vec<&str> = s.split(':').collect();
+        Some(match p.as_slice() {
+            ["i", n] => Ann::Invalid(unx(n)?),
+            ["s", n, v] => Ann::Str(unx(n)?, unx(v)?),
+            ["o", n, ty, v] => Ann::Other(unx(n)?, ty.parse().ok().filter(|t| *t > 1)?, v.parse().ok()?),
+            _ => return None,
+        })
+    }
+}
+
+impl Crashpad {
+    fn text(&self) -> String {
+        let ms: Vec<String> = self
+            .modules
+            .iter()
+            .map(|m| {
+                format!(
+                    "{}!{}!{}!{}!{}",
+                    m.index,
+                    m.version,
+                    m.list.iter().map(|s| xs(s)).collect::<Vec<_>>().join("/"),
+                    kvs_text(&m.dict),
+                    m.anns.iter().map(|a| a.text()).collect::<Vec<_>>().join("/")
+                )
+            })
+            .collect();
+        format!("{},{},{},{},{}", self.version, dotted(&self.report_id), dotted(&self.client_id), kvs_text(&self.dict), ms.join("+"))
+    }
+    fn parse(s: &str) -> Option<Option<Crashpad>> {
+        if s == "-" {
+            return Some(None);
+        }
+        let p: Vec<&str> = s.split(',').collect();
+        let [ver, rid, cid, d, ms] = p.as_slice() else { return None };
+        let guid = |t: &str| -> Option<[u32; 11]> {
+            let v: [u32; 11] = nums::<u32>(t, '.')?.try_into().ok()?;
+            (v[1] < 1 << 16 && v[2] < 1 << 16 && v[3..].iter().all(|b| *b < 256)).then_some(v)
+        };
+        let modules = sep_list(ms, '+', |t| {
+            let q: Vec<&str> = t.split('!').collect();
+            let [idx, ver, l, d, a] = q.as_slice() else { return None };
+            Some(CpModule {
+                index: idx.parse().ok()?,
+                version: ver.parse().ok()?,
+                list: sep_list(l, '/', unx)?,
+                dict: sep_list(d, '/', parse_kv)?,
+                anns: sep_list(a, '/', Ann::parse)?,
+            })
+        })?;
+        Some(Some(Crashpad {
+            version: ver.parse().ok().filter(|v| *v != 0)?,
+            report_id: guid(rid)?,
+            client_id: guid(cid)?,
+            dict: sep_list(d, '/', parse_kv)?,
+            modules,
+        }))
+    }
+
+    /// through minidump-synth's CrashpadInfo — when the model is what that writer can express
+    /// (both versions 1, no annotation object of a custom type)
+    fn synth_stream(&self, e: TEndian) -> Option<synth::CrashpadInfo> {
+        if self.version != 1 || self.modules.iter().any(|m| m.version != 1 || m.anns.iter().any(|a| matches!(a, Ann::Other(..)))) {
+            return None;
+        }
+        let st = |b: &[u8]| String::from_utf8(b.to_vec()).ok();
+        let guid = |g: &[u32; 11]| md::GUID { data1: g[0], data2: g[1] as u16, data3: g[2] as u16, data4: std::array::from_fn(|i| g[3 + i] as u8) };
+        let mut c = synth::CrashpadInfo::new(e).report_id(guid(&self.report_id)).client_id(guid(&self.client_id));
+        for (k, v) in &self.dict {
+            c = c.add_simple_annotation(&st(k)?, &st(v)?);
+        }
+        for m in &self.modules {
+            let mut sm = synth::ModuleCrashpadInfo::new(m.index, e);
+            for l in &m.list {
+                sm = sm.add_list_annotation(&st(l)?);
+            }
+            for (k, v) in &m.dict {
+                sm = sm.add_simple_annotation(&st(k)?, &st(v)?);
+            }
+            for a in &m.anns {
+                sm = match a {
+                    Ann::Invalid(n) => sm.add_annotation_object(&st(n)?, synth::AnnotationValue::Invalid),
+                    Ann::Str(n, v) => sm.add_annotation_object(&st(n)?, synth::AnnotationValue::String(st(v)?)),
+                    Ann::Other(..) => return None,
+                };
+            }
+            c = c.add_module(sm);
+        }
+        Some(c)
+    }
+
+    /// Written by hand, in a layout of its own: record | link table | per module: info record, its three
+    /// tables | dictionary table | the string pool LAST, strings in reverse order of use. Offsets are
+    /// relative to the stream's start; `fix` lists the positions of the RVA words.
+    fn manual_image(&self, be: bool) -> (Vec<u8>, Vec<usize>) {
+        struct Img {
+            be: bool,
+            b: Vec<u8>,
+            fix: Vec<usize>,
+            // (position of the RVA word, string bytes, NUL-terminated?)
+            strs: Vec<(usize, Vec<u8>, bool)>,
+        }
+        impl Img {
+            fn u16(&mut self, v: u16) {
+                if self.be { self.b.extend(v.to_be_bytes()) } else { self.b.extend(v.to_le_bytes()) }
+            }
+            fn u32(&mut self, v: u32) {
+                if self.be { self.b.extend(v.to_be_bytes()) } else { self.b.extend(v.to_le_bytes()) }
+            }
+            fn set32(&mut self, at: usize, v: u32) {
+                let w = if self.be { v.to_be_bytes() } else { v.to_le_bytes() };
+                self.b[at..at + 4].copy_from_slice(&w);
+            }
+            /// an RVA word to be pointed at `target` later
+            fn rva_slot(&mut self) -> usize {
+                let at = self.b.len();
+                self.fix.push(at);
+                self.u32(0);
+                at
+            }
+            fn str_ref(&mut self, s: &[u8], nul: bool) {
+                let at = self.rva_slot();
+                self.strs.push((at, s.to_vec(), nul));
+            }
+            fn dict(&mut self, d: &[(Vec<u8>, Vec<u8>)]) {
+                self.u32(d.len() as u32);
+                for (k, v) in d {
+                    self.str_ref(k, true);
+                    self.str_ref(v, true);
+                }
+            }
+        }
+        let mut g = Img { be, b: Vec::new(), fix: Vec::new(), strs: Vec::new() };
+        g.u32(self.version);
+        for id in [&self.report_id, &self.client_id] {
+            g.u32(id[0]);
+            g.u16(id[1] as u16);
+            g.u16(id[2] as u16);
+            for v in &id[3..] {
+                g.b.push(*v as u8);
+            }
+        }
+        g.u32(4 + 8 * self.dict.len() as u32);
+        let dict_slot = g.rva_slot();
+        g.u32(4 + 12 * self.modules.len() as u32);
+        let list_slot = g.rva_slot();
+        // the link table
+        let here = g.b.len() as u32;
+        g.set32(list_slot, here);
+        g.u32(self.modules.len() as u32);
+        let mut link_slots = Vec::new();
+        for m in &self.modules {
+            g.u32(m.index);
+            g.u32(28);
+            link_slots.push(g.rva_slot());
+        }
+        for (m, slot) in self.modules.iter().zip(link_slots) {
+            let here = g.b.len() as u32;
+            g.set32(slot, here);
+            g.u32(m.version);
+            g.u32(4 + 4 * m.list.len() as u32);
+            let l = g.rva_slot();
+            g.u32(4 + 8 * m.dict.len() as u32);
+            let d = g.rva_slot();
+            g.u32(4 + 12 * m.anns.len() as u32);
+            let a = g.rva_slot();
+            // annotation objects first, then the dictionary, then the string list
+            let here = g.b.len() as u32;
+            g.set32(a, here);
+            g.u32(m.anns.len() as u32);
+            for an in &m.anns {
+                g.str_ref(an.name(), true);
+                match an {
+                    Ann::Invalid(_) => {
+                        g.u16(0);
+                        g.u16(0);
+                        g.u32(0);
+                    }
+                    Ann::Str(_, v) => {
+                        g.u16(1);
+                        g.u16(0);
+                        g.str_ref(v, false);
+                    }
+                    Ann::Other(_, ty, v) => {
+                        g.u16(*ty);
+                        g.u16(0);
+                        g.u32(*v);
+                    }
+                }
+            }
+            let here = g.b.len() as u32;
+            g.set32(d, here);
+            g.dict(&m.dict);
+            let here = g.b.len() as u32;
+            g.set32(l, here);
+            g.u32(m.list.len() as u32);
+            for s in &m.list {
+                g.str_ref(s, true);
+            }
+        }
+        let here = g.b.len() as u32;
+        g.set32(dict_slot, here);
+        g.dict(&self.dict);
+        // the string pool
+        let strs = std::mem::take(&mut g.strs);
+        for (at, s, nul) in strs.into_iter().rev() {
+            let here = g.b.len() as u32;
+            g.set32(at, here);
+            g.u32(s.len() as u32);
+            g.b.extend(&s);
+            if nul {
+                g.b.push(0);
+            }
+        }
+        (g.b, g.fix)
+    }
+
+    /// the hand-written image as a section whose RVA words are labels relative to the stream's start
+    fn manual_section(&self, be: bool) -> Section {
+        let (img, mut fix) = self.manual_image(be);
+        fix.sort_unstable();
+        let e = tend(be);
+        let mut sec = Section::with_endian(e);
+        let start = sec.start();
+        let mut i = 0;
+        for at in fix {
+            sec = sec.append_bytes(&img[i..at]);
+            let w: [u8; 4] = img[at..at + 4].try_into().unwrap();
+            let rel = if be { u32::from_be_bytes(w) } else { u32::from_le_bytes(w) };
+            sec = sec.D32(&(&start + rel as i64));
+            i = at + 4;
+        }
+        sec.append_bytes(&img[i..])
+    }
+}
+
 #[derive(Clone, Debug, PartialEq, Default)]
 struct Model {
     flags: u64,
@@ -690,6 +987,7 @@ struct Model {
     misc: Option<Misc>,
     handles: Option<Handles>,
     maps: Option<Vec<MapEntry>>,
+    crashpad: Option<Crashpad>,
 }
 
 fn name_text(cs: &[u32]) -> String {
@@ -811,8 +1109,9 @@ impl Model {
         let y = self.misc.as_ref().map(|y| y.text()).unwrap_or("-".into());
         let h = self.handles.as_ref().map(|h| h.text()).unwrap_or("-".into());
         let l = self.maps.as_ref().map(|l| maps_text(l)).unwrap_or("-".into());
+        let c = self.crashpad.as_ref().map(|c| c.text()).unwrap_or("-".into());
         format!(
-            "roundtrip fl={} pad={} T={} M={} R={} I={} N={} U={} X={} S={} D={} Y={} H={} L={}",
+            "roundtrip fl={} pad={} T={} M={} R={} I={} N={} U={} X={} S={} D={} Y={} H={} L={} C={}",
             self.flags,
             self.pad as u8,
             t.join(";"),
@@ -826,7 +1125,8 @@ impl Model {
             d.join(";"),
             y,
             h,
-            l
+            l,
+            c
         )
     }
 
@@ -946,6 +1246,8 @@ impl Model {
                 m.handles = Handles::parse(h)?;
             } else if let Some(l) = t.strip_prefix("L=") {
                 m.maps = parse_maps(l)?;
+            } else if let Some(c) = t.strip_prefix("C=") {
+                m.crashpad = Crashpad::parse(c)?;
             } else {
                 return None;
             }
@@ -1238,6 +1540,17 @@ fn build_synth(m: &Model, be: bool, mem64: bool) -> Option<Vec<u8>> {
                 sec = sec.append_section(en);
             }
             d = d.add_stream(synth::SimpleStream { stream_type: md::MINIDUMP_STREAM_TYPE::HandleDataStream as u32, section: sec });
+        }
+    }
+    // Crashpad info: synth's CrashpadInfo when it can express the model (for every other such model),
+    // else the hand-written image with its own placement of tables and strings
+    if let Some(c) = &m.crashpad {
+        let pick_synth = fnv64(c.text().as_bytes()) & 1 == 0;
+        match c.synth_stream(e).filter(|_| pick_synth) {
+            Some(sc) => d = d.add_crashpad_info(sc),
+            None => {
+                d = d.add_stream(synth::SimpleStream { stream_type: md::MINIDUMP_STREAM_TYPE::CrashpadInfoStream as u32, section: c.manual_section(be) });
+            }
         }
     }
     // Linux maps: text written here the way the kernel (or a sloppier writer) spells it, handed to synth
@@ -1746,6 +2059,50 @@ fn real_report(bytes: &[u8], ids: &[u32]) -> String {
             let _ = write!(o, "{}|{}", maps_text(&entries), probes.join(","));
         }
     }
+    // Crashpad info
+    o.push_str(" C=");
+    match dump.get_stream::<MinidumpCrashpadInfo>() {
+        Err(e) => o.push_str(&err_name(&e)),
+        Ok(c) => {
+            let guid = |g: &md::GUID| {
+                let mut v = vec![g.data1, g.data2 as u32, g.data3 as u32];
+                v.extend(g.data4.iter().map(|b| *b as u32));
+                v
+            };
+            let mut ids = guid(&c.raw.report_id);
+            ids.extend(guid(&c.raw.client_id));
+            let kvs = |d: &std::collections::BTreeMap<String, String>| d.iter().map(|(k, v)| format!("{}:{}", xs(k.as_bytes()), xs(v.as_bytes()))).collect::<Vec<_>>().join("/");
+            let ms: Vec<String> = c
+                .module_list
+                .iter()
+                .map(|m| {
+                    let anns: Vec<String> = m
+                        .annotation_objects
+                        .iter()
+                        .map(|(k, v)| {
+                            let val = match v {
+                                MinidumpAnnotation::Invalid => "i".to_string(),
+                                MinidumpAnnotation::String(s) => format!("s:{}", xs(s.as_bytes())),
+                                MinidumpAnnotation::UserDefined(r) => format!("u:{}:{}", r.ty, r.value),
+                                MinidumpAnnotation::Unsupported(r) => format!("n:{}:{}", r.ty, r.value),
+                                _ => "?".to_string(),
+                            };
+                            format!("{}={}", xs(k.as_bytes()), val)
+                        })
+                        .collect();
+                    format!(
+                        "{}!{}!{}!{}!{}",
+                        m.module_index,
+                        m.raw.version,
+                        m.list_annotations.iter().map(|s| xs(s.as_bytes())).collect::<Vec<_>>().join("/"),
+                        kvs(&m.simple_annotations),
+                        anns.join("/")
+                    )
+                })
+                .collect();
+            let _ = write!(o, "{},{},{},{}", c.raw.version, dotted(&ids), kvs(&c.simple_annotations), ms.join("+"));
+        }
+    }
     o
 }
 
@@ -2021,6 +2378,47 @@ fn expected_report(m: &Model, be: bool, mem64: bool, as_code: bool) -> String {
             let _ = write!(o, " L={}|?", maps_text(ms));
         }
     }
+    match &m.crashpad {
+        None => o.push_str(" C=err StreamNotFound"),
+        Some(c) => {
+            // dictionaries are maps by key (byte order = UTF-8 string order), the last duplicate wins;
+            // annotation objects likewise, by name; list annotations and modules keep file order
+            let map = |d: &[(Vec<u8>, Vec<u8>)]| {
+                let mut b = std::collections::BTreeMap::new();
+                for (k, v) in d {
+                    b.insert(k.clone(), v.clone());
+                }
+                b.iter().map(|(k, v)| format!("{}:{}", xs(k), xs(v))).collect::<Vec<_>>().join("/")
+            };
+            let ms: Vec<String> = c
+                .modules
+                .iter()
+                .map(|m| {
+                    let mut b = std::collections::BTreeMap::new();
+                    for a in &m.anns {
+                        let val = match a {
+                            Ann::Invalid(_) => "i".to_string(),
+                            Ann::Str(_, v) => format!("s:{}", xs(v)),
+                            Ann::Other(_, ty, v) if *ty >= 0x8000 => format!("u:{ty}:{v}"),
+                            Ann::Other(_, ty, v) => format!("n:{ty}:{v}"),
+                        };
+                        b.insert(a.name().to_vec(), val);
+                    }
+                    format!(
+                        "{}!{}!{}!{}!{}",
+                        m.index,
+                        m.version,
+                        m.list.iter().map(|s| xs(s)).collect::<Vec<_>>().join("/"),
+                        map(&m.dict),
+                        b.iter().map(|(k, v)| format!("{}={}", xs(k), v)).collect::<Vec<_>>().join("/")
+                    )
+                })
+                .collect();
+            let mut ids = c.report_id.to_vec();
+            ids.extend(c.client_id);
+            let _ = write!(o, " C={},{},{},{}", c.version, dotted(&ids), map(&c.dict), ms.join("+"));
+        }
+    }
     o
 }
 
@@ -2231,7 +2629,7 @@ impl Engine for Roundtrip {
             // report comparison above decides: a raw extra served in its place would be reported
             // instead of the model's items. For any other type the LAST extra of that type is served.
             if let Ok(dump) = Minidump::<&[u8]>::read(&bytes[..]) {
-                let core = |ty: u32| [3u32, 4, 5, 9, 16, 24, 14].contains(&ty) || (ty == 6 && m.exc.is_some()) || (ty == 7 && m.sys.is_some()) || (ty == 15 && m.misc.is_some()) || (ty == 12 && m.handles.is_some()) || (ty == 0x47670009 && m.maps.is_some());
+                let core = |ty: u32| [3u32, 4, 5, 9, 16, 24, 14].contains(&ty) || (ty == 6 && m.exc.is_some()) || (ty == 7 && m.sys.is_some()) || (ty == 15 && m.misc.is_some()) || (ty == 12 && m.handles.is_some()) || (ty == 0x47670009 && m.maps.is_some()) || (ty == 0x43500001 && m.crashpad.is_some());
                 let mut seen = Vec::new();
                 for (ty, _) in m.extra.iter() {
                     if core(*ty) || seen.contains(ty) {
@@ -2304,6 +2702,24 @@ impl Engine for Roundtrip {
         }
         if top_region(&m) {
             res.tags.push("region-at-top".into());
+        }
+        match &m.crashpad {
+            None => res.tags.push("crashpad:none".into()),
+            Some(c) => {
+                res.tags.push(format!("crashpad:modules:{}", bucket(c.modules.len())));
+                res.tags.push(format!("crashpad:dict:{}", bucket(c.dict.len())));
+                res.tags.push(if c.synth_stream(TEndian::Little).is_some() && fnv64(c.text().as_bytes()) & 1 == 0 { "crashpad:by-synth".into() } else { "crashpad:by-hand".into() });
+                for m in &c.modules {
+                    for a in &m.anns {
+                        res.tags.push(match a {
+                            Ann::Invalid(_) => "ann:invalid".to_string(),
+                            Ann::Str(..) => "ann:string".to_string(),
+                            Ann::Other(_, ty, _) if *ty >= 0x8000 => "ann:user".to_string(),
+                            Ann::Other(..) => "ann:unsupported".to_string(),
+                        });
+                    }
+                }
+            }
         }
         match &m.maps {
             None => res.tags.push("maps:none".into()),
@@ -2451,7 +2867,36 @@ impl Engine for Roundtrip {
                 }
             }
         }
-        for f in 0..7 {
+        if let Some(cp) = &m.crashpad {
+            let mut cur = cp.clone();
+            let mut i = 0;
+            while i < cur.modules.len() {
+                let mut c = m.clone();
+                let mut cc = cur.clone();
+                cc.modules.remove(i);
+                c.crashpad = Some(cc.clone());
+                if still_fails(&c.line()) {
+                    m = c;
+                    cur = cc;
+                } else {
+                    i += 1;
+                }
+            }
+            let mut i = 0;
+            while i < cur.dict.len() {
+                let mut c = m.clone();
+                let mut cc = cur.clone();
+                cc.dict.remove(i);
+                c.crashpad = Some(cc.clone());
+                if still_fails(&c.line()) {
+                    m = c;
+                    cur = cc;
+                } else {
+                    i += 1;
+                }
+            }
+        }
+        for f in 0..8 {
             let mut c = m.clone();
             match f {
                 0 => c.exc = None,
@@ -2460,6 +2905,7 @@ impl Engine for Roundtrip {
                 3 => c.misc = None,
                 4 => c.handles = None,
                 5 => c.maps = None,
+                6 => c.crashpad = None,
                 _ => c.flags = 0,
             }
             if c != m && still_fails(&c.line()) {
@@ -2896,6 +3342,63 @@ fn gen_model(rng: &mut Rng, tier: Tier, k: usize) -> Model {
         }
         m.maps = Some(ms);
     }
+    // Crashpad info: dictionaries with duplicate / empty / non-ASCII keys, string lists, annotation objects of
+    // every kind, several modules
+    if rng.chance(1, 2) {
+        let word = |rng: &mut Rng| -> Vec<u8> {
+            let pool: [&str; 12] = ["", "a", "b", "key", "ptype", "ver", "κ", "日本", "x y", "list_annotations", "zz", "A"];
+            if rng.chance(3, 4) {
+                let s: &&str = rng.pick(&pool[..]);
+                s.as_bytes().to_vec()
+            } else {
+                name_string(&rand_name(rng, 10)).into_bytes()
+            }
+        };
+        let dict = |rng: &mut Rng, n: u64| -> Vec<(Vec<u8>, Vec<u8>)> { (0..n).map(|_| (word(rng), word(rng))).collect() };
+        let guid = |rng: &mut Rng| -> [u32; 11] {
+            let mut g = [0u32; 11];
+            if rng.chance(2, 3) {
+                g[0] = rand_u32(rng);
+                g[1] = rng.next() as u16 as u32;
+                g[2] = rng.next() as u16 as u32;
+                for v in g[3..].iter_mut() {
+                    *v = rng.next() as u8 as u32;
+                }
+            }
+            g
+        };
+        let plain = rng.chance(1, 2);
+        let nm = count(rng).min(3);
+        let mut modules = Vec::new();
+        for i in 0..nm {
+            let na = rng.below(5);
+            let anns = (0..na)
+                .map(|_| match rng.below(if plain { 2 } else { 4 }) {
+                    0 => Ann::Invalid(word(rng)),
+                    1 => Ann::Str(word(rng), word(rng)),
+                    2 => Ann::Other(word(rng), 0x8000 + rng.below(0x8000) as u16, rand_u32(rng)),
+                    _ => Ann::Other(word(rng), 2 + rng.below(0x7ffe) as u16, rand_u32(rng)),
+                })
+                .collect();
+            let nl = rng.below(4);
+            let nd = rng.below(4);
+            modules.push(CpModule {
+                index: if rng.chance(1, 4) { rand_u32(rng) } else { i as u32 },
+                version: if plain || rng.chance(1, 2) { 1 } else { rand_u32(rng) },
+                list: (0..nl).map(|_| word(rng)).collect(),
+                dict: dict(rng, nd),
+                anns,
+            });
+        }
+        let nd = rng.below(5);
+        m.crashpad = Some(Crashpad {
+            version: if plain || rng.chance(1, 2) { 1 } else { rand_u32(rng).max(1) },
+            report_id: guid(rng),
+            client_id: guid(rng),
+            dict: dict(rng, nd),
+            modules,
+        });
+    }
     // now and then, instead: a raw LinuxMaps stream with lines a writer should not produce (missing
     // fields, bad numbers, smaps attributes, stray white space, invalid UTF-8) — only the model decoder
     // vs the real reader is compared on those
@@ -2989,6 +3492,9 @@ fn gen_model(rng: &mut Rng, tier: Tier, k: usize) -> Model {
             }
             if m.maps.is_some() {
                 tys.push(0x47670009);
+            }
+            if m.crashpad.is_some() {
+                tys.push(0x43500001);
             }
             if m.exc.is_some() {
                 tys.push(6);
